@@ -298,7 +298,7 @@ class C19(core.Check):
         'inverted-range:numeric_bytecode', 'inverted-range:relative_address', 'inverted-range:relative_address/zero-bound',
         'inverted-range:numeric_bytecode/zero-bound', 'zone:inverted', 'zone:beyond-address-width',
         'origin-below-redefined-GLOBAL', 'instruction-without-bytecode', 'variant-without-bytecode', 'unknown-operand-type',
-        'enumeration-key-is-register', 'isa-version-not-semver', 'gate:min_version', 'gate:require', 'gate:require/name-from-file-name', 'fmt:yaml', 'fmt:json', 'optional-part-shape', 'optional-part:registers-without-value', 'gate:min_version/written-as-a-number']}
+        'enumeration-key-is-register', 'isa-version-not-semver', 'gate:min_version', 'gate:require', 'gate:require/name-from-file-name', 'fmt:yaml', 'fmt:json', 'optional-part-shape', 'optional-part:registers-without-value', 'gate:min_version/written-as-a-number', 'gate:require/muted', 'gate:require/in-included-file']}
 
     def run(self, isa, fmt, src='.byte 0\n'):
         fn, text = isamod.render_isa(isa, fmt)
@@ -369,7 +369,7 @@ class C19(core.Check):
                 yield {'runs': [self.run(isa, fmt)],
                        'meta': {'expect': 'ACCEPT' if ok else 'REJECT', 'what': f'min_version={v!r} (a number)', 'style': 'gate',
                                 'detail': f'running {cur}, minimum supported {mn}'},
-                       'tags': ['gate:min_version', 'gate:min_version/written-as-a-number', 'fmt:' + fmt]}
+                       'tags': ['gate:min_version', 'gate:min_version/written-as-a-number', 'gate:require/muted', 'gate:require/in-included-file', 'fmt:' + fmt]}
         # #require
         for name_ok in (True, False):
             for op in REQ_OPS + [None]:
@@ -386,6 +386,18 @@ class C19(core.Check):
                     yield {'runs': [self.run(isa, 'json', line + '\n.byte 0\n')],
                            'meta': {'expect': 'ACCEPT' if ok else 'REJECT', 'what': line, 'style': 'gate'},
                            'tags': ['gate:require', 'fmt:json']}
+                    # a requirement is a statement about the file, not a byte: muting does not silence it
+                    nreq = getattr(self, '_nreq', 0) + 1
+                    self._nreq = nreq
+                    if nreq % 3 == 0:
+                        r_ = self.run(isa, 'json', '#mute\n' + line + '\n#unmute\n.byte 0\n')
+                        yield {'runs': [r_], 'meta': {'expect': 'ACCEPT' if ok else 'REJECT', 'what': line + ' (between #mute and #unmute)', 'style': 'gate'},
+                               'tags': ['gate:require', 'gate:require/muted', 'fmt:json']}
+                    elif nreq % 3 == 1:
+                        r_ = self.run(isa, 'json', '.byte 1\n#mute\n#include "hdr.asm"\n#unmute\n.byte 0\n')
+                        r_['files']['hdr.asm'] = line + '\n.byte 2\n'
+                        yield {'runs': [r_], 'meta': {'expect': 'ACCEPT' if ok else 'REJECT', 'what': line + ' (in a file included while muted)', 'style': 'gate'},
+                               'tags': ['gate:require', 'gate:require/muted', 'gate:require/in-included-file', 'fmt:json']}
                     if op is None:
                         break
 
